@@ -162,6 +162,22 @@ func (r *HTTPRun) post(op *Op) *Violation {
 			expectGone = true // nothing to complete
 		}
 	}
+	if ms := intOf(op.M, "scanJumpMs"); ms > 0 {
+		// the completion scan of this end request takes longer than the lease: the lease was given up when the
+		// request was accepted for completion, so nothing may fire any more
+		seen := 0
+		prev := hooks.onPoint
+		hooks.onPoint = func(owner any, name string, h int64) {
+			if name == "CompleteFullSync.scanEntity" {
+				seen++
+				if seen == intOf(op.M, "scanJumpAt") {
+					time.Sleep(time.Duration(ms) * time.Millisecond)
+					r.Stats["clock_jumps_inside_completion"]++
+				}
+			}
+		}
+		defer func() { hooks.onPoint = prev }()
+	}
 	code, body := r.H.Do("POST", "/datasets/"+ds+"/entities", hdr, udaBody(op.Ents))
 	r.Stats["http_posts"]++
 	desc := fmt.Sprintf("POST %s start=%v id=%q end=%v (%d entities)", ds, start, id, end, len(op.Ents))
@@ -242,6 +258,17 @@ func (r *HTTPRun) jobSyncOp(op *Op) *Violation {
 	}
 	hit := map[string]int{}
 	var inner *Violation
+	sinkCalls := 0
+	singleRejects, maxItems, abandoned := 0, 0, false
+	if tr, ok := cfg["triggers"].([]any); ok && len(tr) > 0 {
+		if hs, ok := tr[0].(map[string]any)["onError"].([]any); ok {
+			for _, h := range hs {
+				if hm, _ := h.(map[string]any); hm != nil && strings.EqualFold(fmt.Sprint(hm["errorHandler"]), "log") {
+					maxItems = intOf(hm, "maxItems")
+				}
+			}
+		}
+	}
 	hooks.onFaultOn = func(owner any, name string, subject any, h int64) error {
 		if name != "sink.dataset" {
 			return nil
@@ -251,6 +278,25 @@ func (r *HTTPRun) jobSyncOp(op *Op) *Violation {
 		if list, ok := subject.([]*server.Entity); ok {
 			for _, e := range list {
 				ents = append(ents, specFromCanon(r.H.Canon(e)))
+			}
+		}
+		sinkCalls++
+		if k := intOf(op.M, "sinkFailAt"); k > 0 && sinkCalls == k {
+			r.Stats["fault_sink_error"]++
+			return errSinkInjected
+		}
+		if sfx, _ := op.M["rejectSuffix"].(string); sfx != "" {
+			for _, e := range ents {
+				if strings.HasSuffix(CanonSpec(e).ID, sfx) {
+					r.Stats["fault_sink_reject"]++
+					if len(ents) == 1 {
+						singleRejects++
+						if maxItems > 0 && singleRejects >= maxItems {
+							abandoned = true // the log handler gives up: the run stops here, its sync is abandoned
+						}
+					}
+					return fmt.Errorf("scripted sink refuses %s", shortURI(CanonSpec(e).ID))
+				}
 			}
 		}
 		r.expire(ds)
@@ -272,6 +318,10 @@ func (r *HTTPRun) jobSyncOp(op *Op) *Violation {
 			// the job's sync begins: it supersedes whatever was running; it has no id and no lease
 			*r.st(ds) = syncState{active: true, id: "", byJob: true, seen: map[string]bool{}}
 		case "pipeline.full.afterEnd":
+			if abandoned && inner == nil {
+				inner = viol("C09", "fullsync-protocol", "abandoned-job-sync-completed", "the job's sink refused %d entities, its log handler (maxItems=%d) gave up and the run stopped; the sync it had started was completed all the same, deleting what the run had not written yet", singleRejects, maxItems)
+				return
+			}
 			// the job completed its sync - if it still was the job's sync
 			r.expire(ds)
 			if s := r.st(ds); s.active && s.byJob {
@@ -299,7 +349,22 @@ func (r *HTTPRun) jobSyncOp(op *Op) *Violation {
 			}
 		}
 	}
-	_, ended, err := r.H.RunJobToEnd(id, "fullsync", 3*time.Hour)
+	var ended bool
+	var err error
+	if op.M != nil && op.M["cron"] == true {
+		// through the job's own cron trigger (error handlers only apply there): jump to its next fire time
+		fire := time.Now().Add(6 * time.Hour)
+		for _, e := range r.H.Full.Sched.GetScheduleEntries().Entries {
+			if e.Next.After(time.Now()) && e.Next.Before(fire) {
+				fire = e.Next
+			}
+		}
+		time.Sleep(time.Until(fire) + time.Second)
+		ended = r.H.WaitJobsIdle(3 * time.Hour)
+		r.Stats["job_syncs_by_cron"]++
+	} else {
+		_, ended, err = r.H.RunJobToEnd(id, "fullsync", 3*time.Hour)
+	}
 	hooks.onPoint, hooks.onFaultOn = nil, nil
 	if inner != nil {
 		return inner
